@@ -286,6 +286,23 @@ def c02(res, tier, rng, wd):
         data = [b for f in fr for b in f]
         steps = [e1.rx(c) for c in (e1.chunk_random(rng, data) if rng.random() < 0.5 else [data])]
         scs.append(e1.scenario(len(scs), framing, [1, 2], steps, seed=rng.randrange(100), tag="c02-after-bad-frame"))
+    # the RTU server re-opens its port after a framing error and runs the SAME session again: the requests that arrive then
+    # are decoded from their own bytes only (a damaged frame, then writes with read-back; also a frame that lacks its first byte)
+    for k in range(40 if thorough else 12):
+        u = rng.choice([1, 2])
+        victim = e1.rtu(u, rng.choice([e1.req_wmr(3, [1, 2, 3]), e1.req_wsr(7, 7), e1.req_wmc(2, [True, False, True, True]), e1.req_read(3, 0, 9)]))
+        kind = rng.choice(["crc", "crc", "cut", "unknown-fc"])
+        if kind == "crc":
+            bad = list(victim)
+            bad[rng.randrange(len(bad))] ^= 1 << rng.randrange(8)
+        elif kind == "cut":
+            bad = victim[:rng.randrange(2, len(victim))]
+        else:
+            bad = e1.rtu(u, [0x2B, 0x0E, 1, 0])
+        w = e1.req_wsr(rng.randrange(50), rng.randrange(65536))
+        steps = [e1.rx(bad)] + [{"op": "reopen"}] * (len(bad) + 2)
+        steps += [e1.rx(e1.rtu(u, w)), e1.rx(e1.rtu(u, e1.readback_of(w))), e1.rx(e1.rtu(u, w)[1:]), e1.rx(e1.rtu(3 - u, e1.req_read(1, 0, 4)))]
+        scs.append(e1.scenario(len(scs), "rtu", [1, 2], steps, seed=rng.randrange(100), tag=f"c02-rtu-reopen-after-{kind}"))
     split = e1.gen_split_with_command(rng, 60 if thorough else 16, len(scs), auth_modes=AUTH_MODES[:3], tagp="c02")
     scs += split
     for i, x in enumerate(scs):
